@@ -1,2 +1,3 @@
 import Gen.Plumbing
 import Gen.Data
+import Gen.FluidData
